@@ -183,7 +183,39 @@ def t_addelse(t):
                     break
 
 
-ALL = {"ltswap": t_ltswap, "noelse": t_noelse, "addelse": t_addelse, "eqswap": t_eqswap, "ifstmt": t_ifstmt, "reprint": t_reprint, "locals": t_locals, "nparams": t_nparams, "asserts": t_asserts, "temps": t_temps, "annotate": t_annotate, "split": t_split, "flip": t_flip}
+def t_reorder(t):
+    """two adjacent assignments to plain names that do not read each other's target (and call nothing that could have an effect) are exchanged"""
+    def names(e, ctx):
+        return {n.id for n in ast.walk(e) if isinstance(n, ast.Name) and isinstance(n.ctx, ctx)}
+
+    def simple(st):
+        return isinstance(st, ast.Assign) and len(st.targets) == 1 and isinstance(st.targets[0], ast.Name) and alpha._pure_looking(st.value) and \
+            not any(isinstance(c, (ast.Call, ast.Lambda, ast.ListComp, ast.GeneratorExp, ast.DictComp, ast.SetComp)) for c in ast.walk(st.value))
+    for node in ast.walk(t):
+        for field in ("body", "orelse"):
+            body = getattr(node, field, None)
+            if not (isinstance(body, list) and len(body) > 1 and all(isinstance(s, ast.stmt) for s in body)):
+                continue
+            k = 0
+            while k + 1 < len(body):
+                a, b = body[k], body[k + 1]
+                if simple(a) and simple(b) and a.targets[0].id != b.targets[0].id and a.targets[0].id not in names(b.value, ast.Load) and b.targets[0].id not in names(a.value, ast.Load):
+                    body[k], body[k + 1] = b, a
+                    k += 2
+                else:
+                    k += 1
+
+
+def t_range(t):
+    """for i, _ in enumerate(X)  ->  for i in range(len(X))"""
+    for n in ast.walk(t):
+        if isinstance(n, ast.For) and isinstance(n.target, ast.Tuple) and len(n.target.elts) == 2 and isinstance(n.target.elts[1], ast.Name) and n.target.elts[1].id == "_" \
+                and isinstance(n.iter, ast.Call) and ast.unparse(n.iter.func) == "enumerate" and len(n.iter.args) == 1:
+            n.target = n.target.elts[0]
+            n.iter = ast.Call(func=ast.Name(id="range", ctx=ast.Load()), args=[ast.Call(func=ast.Name(id="len", ctx=ast.Load()), args=[n.iter.args[0]], keywords=[])], keywords=[])
+
+
+ALL = {"reorder": t_reorder, "range": t_range, "ltswap": t_ltswap, "noelse": t_noelse, "addelse": t_addelse, "eqswap": t_eqswap, "ifstmt": t_ifstmt, "reprint": t_reprint, "locals": t_locals, "nparams": t_nparams, "asserts": t_asserts, "temps": t_temps, "annotate": t_annotate, "split": t_split, "flip": t_flip}
 
 
 def main():
